@@ -22,6 +22,8 @@ from typing import Callable, Dict, Iterable, List, Optional, Set, Tuple
 Edge = Tuple[int, Optional[str]]          # dangling edge: (source node, label)
 
 TOTAL_HANDLER_TYPES = {"Exception", "BaseException"}
+# builtins that cannot raise on the argument shapes the repo uses them with
+_NORAISE_BUILTINS = {"getattr", "isinstance", "callable", "hasattr", "id", "bool", "set", "list", "dict", "len", "type"}
 
 
 class Node:
@@ -53,6 +55,9 @@ def may_raise(node: ast.AST) -> bool:
     for n in ast.walk(node):
         if isinstance(n, (ast.FunctionDef, ast.AsyncFunctionDef, ast.Lambda)) and n is not node:
             continue
+        if isinstance(n, ast.Call) and isinstance(n.func, ast.Name) and n.func.id in _NORAISE_BUILTINS:
+            if n.func.id != "getattr" or len(n.args) == 3:
+                continue
         if isinstance(n, (ast.Call, ast.Await, ast.Yield, ast.YieldFrom)):
             return True
         if isinstance(n, ast.Subscript) and isinstance(n.ctx, (ast.Load, ast.Del)):
